@@ -1,6 +1,6 @@
 (* C20 -- sending applies backpressure and never hangs on a dead connection.  Statements only; proofs in Proofs/C20_*.v. *)
 From Coq Require Import List Arith Bool.
-From EN Require Import Conc.FlowControl Proofs.C20_flow Proofs.C20_adapter.
+From EN Require Import Conc.FlowControl Proofs.C20_flow Proofs.C20_adapter Gen.ParamsC20 Proofs.C20_repo.
 Import ListNotations.
 
 (* WriteFlowControl, every label sequence (drain / pause / resume / connection_lost / is_closing / cancel of ANY parked
@@ -93,6 +93,27 @@ Theorem send_unflushed_datagram_refuted :
                In (ODrain 0 ROk) o /\ bytes_of 0 (a_buf a') = 3.
 Proof. exact send_unflushed_datagram_refuted_proof. Qed.
 Print Assumptions send_unflushed_datagram_refuted.
+
+(* The adapters of /repo AS THEY ARE NOW.  Gen/ParamsC20.v is regenerated from the source (fail-closed ast reader) on
+   every run: whether each constructor calls transport.set_write_buffer_limits(0), whether send_all_from_iterable
+   re-checks the write buffer after writelines(), whether this interpreter's writelines() pauses by itself.
+   stream_cfg / dgram_endpoint_cfg / dgram_listener_cfg (Proofs/C20_repo.v) are the transport configurations these facts
+   give (mark = 0 iff the limits are set to 0).  All three satisfy the pause hypothesis ... *)
+Theorem repo_adapters_satisfy_H_pause :
+  forall c : tcfg, In c [stream_cfg; dgram_endpoint_cfg; dgram_listener_cfg] -> Hc c /\ (forall l : alabel, ok_label c l).
+Proof. exact repo_adapters_satisfy_H_pause_proof. Qed.
+Print Assumptions repo_adapters_satisfy_H_pause.
+
+(* ... hence for the stream adapter (send_all and send_all_from_iterable) and both datagram adapters, every label
+   sequence: a send that returns normally has none of its bytes left in user space.  Removing either repair (F5: the
+   datagram constructors' set_write_buffer_limits(0); F6: the re-check after writelines()) breaks this proof. *)
+Theorem send_returns_only_when_flushed_in_repo :
+  forall c : tcfg, In c [stream_cfg; dgram_endpoint_cfg; dgram_listener_cfg] ->
+  forall (n : nat) (ls : list alabel) (a : ad), ad_run (ad_init c n) ls = Some a ->
+  forall (l : alabel) (a' : ad) (o : list wobs) (t : tid),
+    ad_step a l = Some (a', o) -> In (ODrain t ROk) o -> bytes_of t (a_buf a') = 0.
+Proof. exact send_returns_only_when_flushed_in_repo_proof. Qed.
+Print Assumptions send_returns_only_when_flushed_in_repo.
 
 (* H_pause is satisfiable and the theorem is not vacuous: a partial write parks the sender, the flush resumes it *)
 Example adapter_run_example :
